@@ -93,6 +93,12 @@ func extractSinglePart(re *syntax.Regexp) *charClassPart {
 	var charClass *syntax.Regexp
 	var minMatch, maxMatch int
 
+	// The composite searchers consume the longest run of each class; a lazy
+	// quantifier (cc+?, cc*?, cc??, cc{n,m}?) has different match ends.
+	if re.Op != syntax.OpCharClass && re.Flags&syntax.NonGreedy != 0 {
+		return nil
+	}
+
 	switch re.Op {
 	case syntax.OpPlus:
 		// cc+ → minMatch=1, maxMatch=unlimited (0 means unlimited)
@@ -150,8 +156,9 @@ func extractSinglePart(re *syntax.Regexp) *charClassPart {
 	runes := charClass.Rune
 	for i := 0; i < len(runes); i += 2 {
 		lo, hi := runes[i], runes[i+1]
-		// Only support ASCII for now
-		if lo > 255 || hi > 255 {
+		// Only support ASCII: a rune >= 0x80 is two or more UTF-8 bytes,
+		// which a byte membership table cannot express.
+		if lo > 0x7F || hi > 0x7F {
 			return nil
 		}
 		for r := lo; r <= hi; r++ {
@@ -279,15 +286,16 @@ func isValidCompositePart(re *syntax.Regexp) bool {
 
 	switch re.Op {
 	case syntax.OpPlus, syntax.OpStar, syntax.OpQuest:
-		// Must have exactly one sub which is a char class
-		if len(re.Sub) != 1 {
+		// Must have exactly one sub which is a char class.
+		// The composite searchers are greedy-only: reject lazy quantifiers.
+		if len(re.Sub) != 1 || re.Flags&syntax.NonGreedy != 0 {
 			return false
 		}
 		return re.Sub[0].Op == syntax.OpCharClass
 
 	case syntax.OpRepeat:
 		// Must have exactly one sub which is a char class
-		if len(re.Sub) != 1 {
+		if len(re.Sub) != 1 || re.Flags&syntax.NonGreedy != 0 {
 			return false
 		}
 		return re.Sub[0].Op == syntax.OpCharClass
